@@ -286,3 +286,48 @@ func TestDeadlinePropagation(t *testing.T) {
 		t.Fatalf("outcomes %v", st.Outcomes)
 	}
 }
+
+// virtual ticker and clock: ticks come in deadline order with other timers, carry the virtual time,
+// a timer due at the instant of a tick goes off together with it (both orders of the woken threads are
+// explored), and a ticker nobody listens to does not keep the execution alive.
+func TestVirtualTicker(t *testing.T) {
+	body := func() {
+		verifrt.VirtualClock()
+		start := verifrt.Now()
+		tk := verifrt.NewTicker(10e6)
+		forgotten := verifrt.NewTicker(1e6) // never read, never stopped
+		_ = forgotten
+		var mu sync.Mutex
+		var order []string
+		done := make(chan struct{})
+		verifrt.Go(func() {
+			// due exactly at the second tick
+			c, cancel := verifrt.WithTimeout(context.Background(), 20e6)
+			verifrt.RecvDone(c)
+			cancel()
+			mu.Lock()
+			order = append(order, "timer")
+			mu.Unlock()
+			verifrt.Close(done)
+		})
+		for i := 0; i < 2; i++ {
+			verifrt.BeforeRecv(tk.C)
+			at := <-tk.C
+			mu.Lock()
+			order = append(order, fmt.Sprintf("tick@%dms", at.Sub(start).Milliseconds()))
+			mu.Unlock()
+		}
+		tk.Stop()
+		verifrt.BeforeRecv(done)
+		<-done
+		verifrt.Logf("%v now=%dms", order, verifrt.Now().Sub(start).Milliseconds())
+	}
+	st := verifrt.Explore(verifrt.Config{Name: "ticker", Bound: -1}, body, func(x *verifrt.ExecResult) verifrt.Verdict {
+		return verifrt.Verdict{Outcome: fmt.Sprint(x.Status, x.Log)}
+	})
+	got := outcomesOf(st)
+	want := "[ok[[tick@10ms tick@20ms timer] now=20ms] ok[[tick@10ms timer tick@20ms] now=20ms]]"
+	if got != want {
+		t.Fatalf("outcomes %s\nwant     %s", got, want)
+	}
+}
